@@ -24,6 +24,7 @@ import IcontractModel.Lemmas.ReprLines
 import IcontractModel.Lemmas.ReevalCounterexamples
 import IcontractModel.Lemmas.Lookup
 import IcontractModel.Lemmas.CondLookup
+import IcontractModel.Lemmas.SortLemmas
 import IcontractModel.AllTrace
 namespace Icontract.Ex
 
@@ -295,6 +296,46 @@ theorem C06_upstream_table_was_not_pythons :
     lookupT (Tbl.ofCall params kwargs [] globals) "y" = some (some (.int 100)) ∧
     lookupT (Tbl.ofCall params kwargs [] globals) "lower" = some (some (.int 0)) := by
   refine ⟨?_, ?_, ?_, ?_, ?_, ?_⟩ <;> rfl
+
+/-- **Every representable argument of the call is listed** - with one exception, which is exactly the known finding
+`argument-hidden-by-same-named-variable`: a message has one line per expression text, so an argument whose NAME is
+already the text of a line (the condition reads a variable of that name) gets no second line. -/
+theorem C06_every_argument_listed_or_its_name_is_a_line (lines : List (String × Val)) (condParams : List String)
+    (kw : List (String × Val)) (k : String) (v : Val)
+    (hkw : (k, v) ∈ kw) (hd : (kw.map (·.1)).Nodup) (hr : representable v = true)
+    (hk : (k ≠ "_ARGS" ∧ k ≠ "_KWARGS") ∨ condParams.contains k = true) :
+    (k, v) ∈ reprPairs lines condParams kw ∨ ∃ v', (k, v') ∈ lines := by
+  have hsel : (k, v) ∈ selectKwargs condParams kw := by
+    unfold selectKwargs
+    refine List.mem_filter.mpr ⟨hkw, ?_⟩
+    rcases hk with ⟨h1, h2⟩ | h
+    · simp [h1, h2]
+    · have hm : k ∈ condParams := List.contains_iff_mem.mp h
+      by_cases ha : k = "_ARGS"
+      · subst ha; simp [hm]
+      · by_cases hb : k = "_KWARGS"
+        · subst hb; simp [hm]
+        · simp [ha, hb]
+  have hs : (k, v) ∈ (selectKwargs condParams kw).mergeSort keyLe := List.mem_mergeSort.mpr hsel
+  obtain ⟨q, hq, hqk⟩ := key_in_foldl_addStep _ lines (k, v) hs hr
+  rw [← addArguments_eq] at hq
+  rcases mem_addArguments hq with hl | ⟨hq2, _, _⟩
+  · refine Or.inr ⟨q.2, ?_⟩
+    have hq' : q = (k, q.2) := by
+      cases q with
+      | mk a b => simp only [] at hqk; subst hqk; rfl
+    rw [← hq']; exact hl
+  · have : q = (k, v) := eq_of_key_eq_of_nodup (selectKwargs_keys_nodup condParams hd) q (k, v) hq2 hsel hqk
+    subst this
+    exact Or.inl (List.mem_mergeSort.mpr hq)
+
+/-- the exception is real: `lambda x: x > y` (a global `y = 100`) on `def f(x, y)` called `f(5, 1)` - the line `y`
+shows the variable the condition read, the argument `y = 1` has no line -/
+example : ("y", Val.int 1) ∉ reprPairs [("x", .int 5), ("y", .int 100)] ["x"] [("x", .int 5), ("y", .int 1)] := by
+  intro h
+  rcases mem_reprPairs h with h | ⟨_, _, h3⟩
+  · simp at h
+  · exact h3 ("y", .int 100) (by simp) rfl
 
 /-- non-vacuity: a name bound in all three look-ups -/
 example : lookupT (Tbl.ofLookups [[("x", .int 1)], [("x", .int 2), ("c", .int 5)], [("x", .int 3), ("c", .int 6), ("g", .int 7)]]) "c"
